@@ -48,6 +48,21 @@ def cmpMat (a b : Mat Q) : Cmp :=
 def cmpAff (a b : Aff Q) : Cmp :=
   if a.indim != b.indim then .different else (cmpMat a.mat b.mat).and (cmpVec a.bias b.bias)
 
+/-- comparison of two maps whose coefficients are results of floating-point sums of products (composition of layers):
+    an entry that is small because large terms cancel carries the rounding error of those terms, so closeness is judged
+    against the largest magnitude occurring in the two maps (relative 2⁻⁴⁰ of it), not against the entry itself -/
+def cmpAffScaled (a b : Aff Q) : Cmp :=
+  if a.indim != b.indim || a.mat.length != b.mat.length || a.bias.length != b.bias.length
+      || !((a.mat.zip b.mat).all (fun p => p.1.length == p.2.length)) then .different
+  else
+    let ea := a.mat.flatMap id ++ a.bias
+    let eb := b.mat.flatMap id ++ b.bias
+    if ea == eb then .same
+    else
+      let scale := (ea ++ eb).foldl (fun m v => max m (absQ v)) 1
+      if (ea.zip eb).all (fun p => p.1 == p.2 || decide (absQ (p.1 - p.2) * (2 : Q) ^ 40 ≤ scale)) then .close
+      else .different
+
 def Cmp.verdict (c : Cmp) (what : String) (model impl : String) : Verdict :=
   match c with
   | .same => .ok
